@@ -86,6 +86,10 @@ def translate_learn(src_root):
                     if isinstance(kw.get("out"), ast.Name) and kw["out"].id in arrays and ast.unparse(kw.get("where")) == f"{b} > 0":
                         x = kw["out"].id; lines.append(f"  let {x} := npDivideWhere {a} {b} {x}"); continue
                 raise Unsupported(f"line {s.lineno}: {ast.unparse(s)[:80]}")
+            if isinstance(s, ast.AugAssign) and isinstance(s.op, ast.Add) and isinstance(s.target, ast.Name) and s.target.id in arrays \
+                    and isinstance(s.value, ast.Call) and ast.unparse(s.value.func) == "np.bincount" and len(s.value.args) == 1 \
+                    and [k.arg for k in s.value.keywords] == ["minlength"]:
+                lines.append(f"  let {s.target.id} := npAdd {s.target.id} (npBincount {need(s.value.args[0])} {need(s.value.keywords[0].value)})"); continue
             if isinstance(s, ast.AugAssign) and isinstance(s.op, ast.Sub) and isinstance(s.target, ast.Name) and s.target.id in arrays \
                     and isinstance(s.value, ast.Subscript) and isinstance(s.value.value, ast.Name) and s.value.value.id in arrays:
                 lines.append(f"  let {s.target.id} := npSub {s.target.id} (npGather {s.value.value.id} {need(s.value.slice)})"); continue
